@@ -399,7 +399,7 @@ HARNESSES = [
                     'blob write is refused if the blob was written again later, a failing undo changes nothing (C13 directed_undo_pack)',
             symbolic='3 booleans (undo / further write / second undo), second-blob selector, final step selector', bounds='programs of 5-10 steps; real scratch directory',
             oracle='blob revision model', code=['FileStorage._txn_undo_write (blob copy)', '_transactionalUndoRecord', 'BlobStorage.undo'],
-            quick=dict(timeout=150, shards=shards(kind=['file', 'proxy'])), thorough=dict(timeout=300, shards=shards(kind=['file', 'proxy']))),
+            quick=dict(timeout=400, shards=shards(kind=['file', 'proxy'])), thorough=dict(timeout=700, shards=shards(kind=['file', 'proxy']))),
 ]
 
 MANIFEST = dict(
